@@ -571,6 +571,13 @@ def generate(rng, tier):
     return cases
 
 
+def _is_hang(t):
+    """(L (N 3) (N why)): the harness gave the case up as a hang (scripted components): why = 1 the code kept reading after
+    1000 consecutive 0-byte reads (spins at end of file), 2 a call did not return within 10 s (twice), 3 the case did not come
+    back from its worker thread within 45 s (twice).  The model has no such outcome; the specification never allows it."""
+    return t.startswith("(L (N 3)")
+
+
 def _is_err(t):
     """(L (N 1) ..): an error outcome, whatever its class"""
     return t.startswith("(L (N 1)")
@@ -598,6 +605,8 @@ def compare(c, i, m):
     position of the early bytes in the stream and the bytes taken from the connection are judged by the specification."""
     if i == "(L (N 2))" or m == "(L (N 2))":
         return i == m
+    if _is_hang(i):
+        return False
     if c.comp in ("h1.accept", "h1.echo"):
         xi, xm = kv.xparse(i), kv.xparse(m)
         if xi[0] != "L" or len(xi[1]) != 2:
@@ -637,6 +646,8 @@ def compare(c, i, m):
 def spec_ok(c, i, s):
     if i == "(L (N 2))":
         return False            # a panic is never acceptable (C02)
+    if _is_hang(i):
+        return False            # 'ends in an error rather than a hang': no stream, schedule or end mode allows a hang
     if c.comp == "h1.poll":
         # the declared body as far as it is delivered, and how much of it is on the connection: everything handed out,
         # in whatever pieces, is a prefix of the first; never more than the second is taken; a read with a non-empty window
